@@ -95,7 +95,7 @@ Definition ops : list (string * (tree -> tree)) := [
   (* [ws, width?, pl, pr, equal, cf, rtl, W] *)
   ("columns", fun t =>
       ofRes (fun r => L [I (fst r); ofList (ofList I) (snd r)])
-            (columns_grid (tList tZ (tNth t 0)) (tOZ (tNth t 1)) (tZ (tNth t 2)) (tZ (tNth t 3))
+            (columns_grid_fixed (tList tZ (tNth t 0)) (tOZ (tNth t 1)) (tZ (tNth t 2)) (tZ (tNth t 3))
                           (tB (tNth t 4)) (tB (tNth t 5)) (tB (tNth t 6)) (tZ (tNth t 7))));
   (* [ascii, legacy, W, node] *)
   ("tree", fun t => ofRes ofStrs (tree_render (tB (tNth t 0)) (tB (tNth t 1)) (tNode (tNth t 3)) (tZ (tNth t 2))));
